@@ -334,6 +334,13 @@ impl InterfaceInner {
                     return;
                 }
 
+                if !pkt.is_empty() && !pkt.finished() {
+                    // E.g. a reply to a received packet while an earlier datagram
+                    // is still being sent in fragments.
+                    net_debug!("dispatch_ieee802154: dropping, fragmentation buffer is busy");
+                    return;
+                }
+
                 let payload_length = packet.header.payload_len;
 
                 Self::ipv6_to_sixlowpan(
